@@ -1,4 +1,4 @@
-import GSProofs.Lemmas.AllocatorReach
+import GSProofs.Lemmas.AllocatorChoice
 /-!
 # C14 — Allocator grants waiting memory promptly and in order
 
@@ -292,5 +292,30 @@ example : resolved 0 (run pickMin (init 6 5) (exOps ++ [.releasePeer 0])).2 = [1
 example : ∃ s1 ev, releaseCore (run pickMin (init 6 5) exOps).1 1 3 = some (s1, ev) ∧
     ∃ s2 e, loopStep pickMin s1 = some (s2, e) ∧ e = [.granted 1 102 2] :=
   ⟨_, _, rfl, _, _, rfl, by decide⟩
+
+/-! ## History-dependent heap tie-breaks
+
+`RunR`: every single `Peek` call may return any comparator-minimal element (see the end of
+`GSProofs/C13.lean` and `GSProofs/Lemmas/AllocatorChoice.lean`). -/
+
+/-- One iteration of the wake-up loop does not depend on which comparator-minimal element the heap
+    returns as long as somebody is waiting (ties exist only between entries that are all blocked
+    on their own peer limit, or all idle). -/
+theorem loop_choice_irrelevant {p p' : Pick} (hp : Admissible p) (hp' : Admissible p') {s : State}
+    (hw : WF s) (hwait : ¬ AllIdle s) : loopStep p s = loopStep p' s :=
+  loopStep_choice_irrelevant hp hp' hw hwait
+
+/-- C14 for nondeterministic runs: the final state of any run with arbitrary per-call heap choices
+    satisfies the no-lost-wake-up invariant, and the per-peer FIFO equation holds for its events. -/
+theorem no_lost_wakeup_fifo_any_heap_choice {mt mp : Nat} (ht : mt < W) (hm : mp < W)
+    {ops : List Op} {r : State × List Event} (h : RunR (init mt mp) ops r) :
+    (∀ m ∈ r.1.peers, ∀ hd, HeadFits mp m hd →
+      (∀ c ∈ r.1.peers, ∀ h', HeadFits mp c h' → hd.idx ≤ h'.idx) → mt < r.1.total + hd.amount) ∧
+    (∀ p, resolved p r.2 ++ waiting r.1 p = requests p ops) := by
+  have e := runR_unique GS.Alloc.pickMin_admissible (Inv.init ht hm) h
+  refine ⟨?_, ?_⟩
+  · intro m hmem hd hfit hmin
+    exact no_lost_wakeup GS.Alloc.pickMin_admissible ht hm ⟨ops, by rw [e]⟩ hmem hfit hmin
+  · intro p; rw [e]; exact fifo GS.Alloc.pickMin_admissible ht hm ops p
 
 end GS.C14
